@@ -89,7 +89,9 @@ def materialise(scn, d):
             os.link(first, os.path.join(d, other))
     for p, e in scn["names"].items():
         if e[0] == "S":
-            os.symlink(e[1], os.path.join(d, p))
+            # the model resolves a link target as a name relative to the working directory (names are opaque keys);
+            # on disk the target is relative to the directory of the link
+            os.symlink(os.path.relpath(e[1], os.path.dirname(p) or "."), os.path.join(d, p))
     for ino, paths in sorted(order, key=lambda kv: -min(len(x) for x in kv[1])):
         nd = scn["inodes"][ino]
         first = os.path.join(d, paths[0])
@@ -110,7 +112,8 @@ def real_listing(d, t0_ns):
             def tm(x):
                 return NOW if x >= t0_ns else x
             if statmod.S_ISLNK(st.st_mode):
-                out.append({"path": rel, "kind": "l", "target": os.readlink(full)})
+                out.append({"path": rel, "kind": "l",
+                            "target": os.path.normpath(os.path.join(os.path.dirname(rel), os.readlink(full)))})
                 continue
             kind = "r" if statmod.S_ISREG(st.st_mode) else "d" if statmod.S_ISDIR(st.st_mode) else \
                 "p" if statmod.S_ISFIFO(st.st_mode) else "?"
@@ -527,7 +530,7 @@ class Gen:
         for _ in range(n):
             for _try in range(20):
                 nm = self.basename(dec)
-                if sub and r.chance(1, 3):
+                if sub and r.chance(1, 3) and nm not in SUFFIXES:     # "sub/.bz2" would name the directory itself
                     nm = sub + "/" + nm
                 if nm not in names:
                     break
